@@ -606,6 +606,19 @@ func runC14(o Opts) error {
 				c14of(s, nm, q(t), z, "of/address")
 			}
 		}
+		if z == "UTC" { // every string literal of the library's own source, as text for every parser
+			for _, t := range sourceDict().Strings {
+				if len(t) > 32 {
+					continue
+				}
+				for k := 0; k < 5; k++ {
+					c14text(s, k, t, "text/source-dictionary")
+				}
+				for _, nm := range []string{"Date", "HHmm", "PIN", "Control", "TaskType", "Weekdays"} {
+					c14of(s, nm, q(t), z, "of/source-dictionary")
+				}
+			}
+		}
 		for _, t := range []string{`"Monday,Friday"`, `"monday, friday"`, `""`, `"Funday"`, `"SUNDAY"`, `null`} {
 			c14of(s, "Weekdays", t, z, "of/weekdays")
 		}
